@@ -1,0 +1,131 @@
+//go:build verif
+// +build verif
+
+// Verification shim for property C17 (pools stay within bounds; a session always closes).
+// Add-only, compiled only with the build tag "verif". Thin exported wrappers so that an external
+// harness can drive the real hostConnPool, refreshDebouncer and eventDebouncer; no logic of its own.
+
+package gocql
+
+import (
+	"net"
+	"time"
+)
+
+// Trace-point kinds inserted in connectionpool.go for C17 (see verif_trace_on.go).
+const (
+	VerifC17KindFillWindow  = 1701 // fill(): first check passed, read lock released, write lock not yet taken
+	VerifC17KindConnectHave = 1702 // connect(): connection established (and keyspace set), pool lock not yet taken
+	VerifC17KindHandleErr   = 1703 // HandleError(closed=true) finished (deferred: the pool lock is released)
+)
+
+// VerifC17Pool wraps one hostConnPool.
+type VerifC17Pool struct{ p *hostConnPool }
+
+// VerifC17NewPool builds a hostConnPool exactly as policyConnPool does (newHostConnPool) for a host
+// with the given address; the pool is not filled. The host is not added to the session's ring.
+func VerifC17NewPool(s *Session, ip string, port, size int, keyspace string) *VerifC17Pool {
+	host := &HostInfo{connectAddress: net.ParseIP(ip), port: port, hostId: "verif-c17-" + ip, state: NodeUp}
+	return &VerifC17Pool{p: newHostConnPool(s, host, port, size, keyspace)}
+}
+
+func (v *VerifC17Pool) Fill()       { v.p.fill() }
+func (v *VerifC17Pool) Close()      { v.p.Close() }
+func (v *VerifC17Pool) Size() int   { return v.p.Size() }
+func (v *VerifC17Pool) Pick() *Conn { return v.p.Pick() }
+func (v *VerifC17Pool) HandleError(c *Conn, err error, closed bool) {
+	v.p.HandleError(c, err, closed)
+}
+
+// Snapshot reads the mutex-protected pool state under the read lock.
+func (v *VerifC17Pool) Snapshot() (conns []*Conn, filling, closed bool) {
+	v.p.mu.RLock()
+	defer v.p.mu.RUnlock()
+	return append([]*Conn(nil), v.p.conns...), v.p.filling, v.p.closed
+}
+
+// VerifC17NetConn returns the net.Conn a Conn was built on (what the HostDialer returned).
+func VerifC17NetConn(c *Conn) net.Conn { return c.conn }
+
+// VerifC17SessionPools returns the size of every host pool of the session's policyConnPool.
+func VerifC17SessionPools(s *Session) map[string]int {
+	out := map[string]int{}
+	if s.pool == nil {
+		return out
+	}
+	s.pool.mu.RLock()
+	defer s.pool.mu.RUnlock()
+	for id, p := range s.pool.hostConnPools {
+		out[id] = p.Size()
+	}
+	return out
+}
+
+// VerifC17SessionNumConns is the per-host pool size the session's pools were configured with.
+func VerifC17SessionNumConns(s *Session) int { return s.pool.numConns }
+
+// VerifC17Refresh wraps one refreshDebouncer.
+type VerifC17Refresh struct{ d *refreshDebouncer }
+
+func VerifC17NewRefresh(interval time.Duration, fn func() error) *VerifC17Refresh {
+	return &VerifC17Refresh{d: newRefreshDebouncer(interval, fn)}
+}
+
+// VerifC17SessionRefresher is the session's own ring-refresh debouncer.
+func VerifC17SessionRefresher(s *Session) *VerifC17Refresh { return &VerifC17Refresh{d: s.ringRefresher} }
+
+func (v *VerifC17Refresh) Debounce()                { v.d.debounce() }
+func (v *VerifC17Refresh) RefreshNow() <-chan error { return v.d.refreshNow() }
+func (v *VerifC17Refresh) Stop()                    { v.d.stop() }
+
+// TimerFired reports whether the debounce timer's channel holds an unconsumed expiry.
+func (v *VerifC17Refresh) TimerFired() bool { return len(v.d.timer.C) > 0 }
+
+// VerifC17EventDeb wraps one eventDebouncer whose callback reports the size of each flushed batch.
+type VerifC17EventDeb struct{ e *eventDebouncer }
+
+func VerifC17NewEventDeb(cb func(n int)) *VerifC17EventDeb {
+	return &VerifC17EventDeb{e: newEventDebouncer("VerifC17", func(fs []frame) { cb(len(fs)) }, nopLogger{})}
+}
+
+// Debounce submits one (status change) event frame.
+func (v *VerifC17EventDeb) Debounce() {
+	v.e.debounce(&statusChangeEventFrame{change: "UP", host: net.IPv4(10, 9, 9, 9), port: 9042})
+}
+
+// FireIn re-arms the debouncer's timer to fire after d instead of eventDebounceTime (the timer is
+// the environment of the debouncer; the flusher's reaction to it is the driver's code).
+func (v *VerifC17EventDeb) FireIn(d time.Duration) {
+	v.e.mu.Lock()
+	v.e.timer.Reset(d)
+	v.e.mu.Unlock()
+}
+
+// Pending is the number of buffered event frames.
+func (v *VerifC17EventDeb) Pending() int {
+	v.e.mu.Lock()
+	defer v.e.mu.Unlock()
+	return len(v.e.events)
+}
+
+func (v *VerifC17EventDeb) Stop() { v.e.stop() }
+
+// TimerFired reports whether the debounce timer's channel holds an unconsumed expiry.
+func (v *VerifC17EventDeb) TimerFired() bool { return len(v.e.timer.C) > 0 }
+
+// VerifC17EventBufferSize is the debouncer's buffer bound.
+const VerifC17EventBufferSize = eventBufferSize
+
+// VerifC17ControlReconnect runs controlConn.reconnect on the caller's goroutine (what the control
+// connection's heartbeat and HandleError do when the connection is lost).
+func VerifC17ControlReconnect(s *Session) {
+	if s.control != nil {
+		s.control.reconnect()
+	}
+}
+
+// VerifC17DebounceRingRefresh is Session.debounceRingRefresh (what node events call).
+func VerifC17DebounceRingRefresh(s *Session) { s.debounceRingRefresh() }
+
+// VerifC17RefreshRing is Session.refreshRing (refreshNow + wait for the result).
+func VerifC17RefreshRing(s *Session) error { return s.refreshRing() }
